@@ -246,7 +246,7 @@ func runC01(c *fw.Check) {
 		c.SetBudget(45 * 60 * 1e9)
 	}
 	entries := gen.Catalogue()
-	c.Rule = fmt.Sprintf("independent text generator: a catalogue of %d grammar productions (instructions, terminators, calls, constants and constant expressions, types, globals, function headers, attributes, comdats, aliases/ifuncs, inline asm, operand bundles, metadata) with typed holes over a type universe; EVERY variant with <=%d departures from the simplest form is generated, validated by llvm-as (rejected = generator defect, skipped and counted), parsed and printed by the library, and LLVM's canonical reading (llvm-as|llvm-dis; top-level order, attribute-group and metadata numbering normalised) of input and output compared; failures are bisected to single variants and reported per minimal deviation set. distinct = distinct generated variants.", len(entries), bound)
+	c.Rule = fmt.Sprintf("independent text generator: a catalogue of %d grammar productions (instructions, terminators, calls, constants and constant expressions, types, globals, function headers, attributes, comdats, aliases/ifuncs, inline asm, operand bundles, metadata) with typed holes over a type universe; EVERY variant with <=%d departures from the simplest form is generated, validated by llvm-as (rejected = generator defect, skipped and counted), parsed and printed by the library, and LLVM's canonical reading (llvm-as|llvm-dis; top-level order, attribute-group and metadata numbering normalised) of input and output compared; failures are bisected to single variants and reported per minimal deviation set (or as the smallest failing combination); thorough adds all two-variant modules (pairs of productions, pairs of <=1-deviation variants of one production, twins). distinct = distinct generated variants.", len(entries), bound)
 	all, batches := genBatches(entries, bound, 60)
 	c.Extra["catalogue_entries"] = len(entries)
 	c.Extra["variants"] = len(all)
@@ -285,6 +285,31 @@ func runC01(c *fw.Check) {
 			c.Case(v.Entry+"|"+fmt.Sprint(v.Choices), "")
 		}
 	})
+	if !c.Quick() {
+		// two-variant modules (thorough): every pair of productions (one order), every ordered
+		// pair of <=1-deviation variants of one production, twins.
+		pairs := genPairs(entries, false)
+		c.Extra["pair_modules"] = len(pairs)
+		fw.ParallelFor(len(pairs), func(i int) {
+			if c.OverBudget() {
+				return
+			}
+			for _, v := range pairs[i] {
+				if v.NoLLVM {
+					return
+				}
+			}
+			if ok, _ := fw.LLVMAccepts(gen.Module(pairs[i])); !ok {
+				mu.Lock()
+				invalid++
+				mu.Unlock()
+				return
+			}
+			c.Valid(1)
+			bisect(fs, pairs[i], c01test)
+			c.Case("pair|"+pairs[i][0].Entry+fmt.Sprint(pairs[i][0].Choices)+"|"+pairs[i][1].Entry+fmt.Sprint(pairs[i][1].Choices), "")
+		})
+	}
 	c.Invalid = int64(invalid)
 	fs.report(c)
 	var ks []string
